@@ -55,17 +55,31 @@ example : validDraw exCfg exState.mid exState.dur := by decide
 example : BInv exCfg exState := by decide
 example : ActIn exCfg [1, 2] := by decide
 
+/-! NOTE on what the membership theorems of this section do and do not cover (audits r4 #6, r5 #6, r6 #8): the dtype tag of every leaf
+is written by `toNValue` (by construction) — a wrong dtype in the real code cannot falsify `….valid (toNValue …) = true`; dtypes and
+field order of the real observations are compared by the `job_shop.state` op (`nvalue`: field order, shape, dtype, data; harness/spec_wave3.py,
+wave3_routing.py) and `jax.eval_shape` in the sweeps.  Shapes are READ OFF the value by `toNValue` (widths off the first row): see
+`…_obs_valid_only`. -/
+
 /-! #### (wave 3) membership in the DECLARED specs: structure, shapes, dtypes and bounds -/
 open Sp PzS PkS
 
 /-- the model's `obsSpec` / `actionSpec` / reward and discount specs ARE the specs generated from the real spec objects
-(Gen/Specs.lean) for the catalogue configuration `JobShop(RandomGenerator(3, 3, 3, 3))` -/
+(Gen/Specs.lean) for the catalogue configuration `JobShop(RandomGenerator(3, 3, 3, 3))`
+SPEC-ONLY second configuration `JobShop(RandomGenerator(num_jobs=4, num_machines=3, max_num_ops=6, max_op_duration=7))`: jobs 4,
+`jobs + 1 = 5`, machines 3, operations 6 and duration 7 are pairwise distinct, so a spec with two of them exchanged (which the
+configuration ⟨3, 3, 3, 3⟩ cannot see — audit r5 #2) fails here -/
 theorem jobshop_obsSpec_generated :
     prefixed "observation_spec." (obsSpec ⟨3, 3, 3, 3⟩) = declared "jobshop-3x3" "observation_spec." ∧
     [("action_spec", actionSpec ⟨3, 3, 3, 3⟩)] = declared "jobshop-3x3" "action_spec" ∧
     [("reward_spec", rewardSpec)] = declared "jobshop-3x3" "reward_spec" ∧
-    [("discount_spec", discountSpec)] = declared "jobshop-3x3" "discount_spec" := by
-  refine ⟨by decide, by decide, by decide, by decide⟩
+    [("discount_spec", discountSpec)] = declared "jobshop-3x3" "discount_spec" ∧
+    prefixed "observation_spec." (obsSpec ⟨4, 3, 6, 7⟩) = declared "spec-only-jobshop-4x3x6x7" "observation_spec." ∧
+    [("action_spec", actionSpec ⟨4, 3, 6, 7⟩)] = declared "spec-only-jobshop-4x3x6x7" "action_spec" ∧
+    [("reward_spec", rewardSpec)] = declared "spec-only-jobshop-4x3x6x7" "reward_spec" ∧
+    [("discount_spec", discountSpec)] = declared "spec-only-jobshop-4x3x6x7" "discount_spec" := by
+  refine ⟨by decide +kernel, by decide +kernel, by decide +kernel, by decide +kernel, by decide +kernel, by decide +kernel,
+    by decide +kernel, by decide +kernel⟩
 
 /-- the `reset` observation of EVERY valid instance (`validDraw`: shape `J × O`, machine ids in `[-1, M-1]`, durations in
 `[-1, D]`; every output of `RandomGenerator` is one: `jobshop_generate_validDraw`) of every configuration with at least one
@@ -102,7 +116,10 @@ theorem jobshop_generate_validDraw (cfg : Cfg) (midDraw durDraw : List (List Int
     generate cfg midDraw durDraw numOps = (reset cfg (genPad cfg midDraw numOps) (genPad cfg durDraw numOps)).1 :=
   ⟨JobShop.generate_validDraw cfg midDraw durDraw numOps h, rfl⟩
 
-/-- what membership means (so the theorems above are not hollow) -/
+/-- what membership means (so the theorems above are not hollow)  CAVEAT (audits r4 #7, r5 #5, r6 #5): for every field that is a nested list, `toNValue` reads the widths off the FIRST row of the
+nested list, so the shape conjuncts here mean "row count, length of the first row, total number of cells" — a ragged value with the right total can be a
+member, and nothing is concluded about the later rows.  Rectangularity is part of the invariant (`SpecInv` / `Shaped` / `Rect…`) under which the
+forward theorems (`…_reset_obs_valid`, `…_step_obs_valid`, `…_along`) are proved, i.e. it holds of every EMITTED observation. -/
 theorem jobshop_obs_valid_only (cfg : Cfg) (o : Obs) (h : (obsSpec cfg).valid (toNValue o) = true) :
     shape2 o.mid = [cfg.J, cfg.O] ∧ (∀ v ∈ o.mid.flatten, -1 ≤ v ∧ v ≤ (cfg.M : Int) - 1) ∧
     shape2 o.dur = [cfg.J, cfg.O] ∧ (∀ v ∈ o.dur.flatten, -1 ≤ v ∧ v ≤ (cfg.D : Int)) ∧
@@ -169,6 +186,16 @@ theorem jobshop_step_last_iff_rules (cfg : Cfg) (s : State) (a : List Int) (hI :
     (step cfg s a).2.stepType = .last ↔
       (¬ legalAction cfg s a ∨ allIdle cfg (next cfg s a) = true ∨ finished cfg (next cfg s a) = true) :=
   JobShop.step_last_iff_rules cfg s a hI hC hA
+
+/-- the same with BOTH other causes at the level of the RULES (audit r5 #4; `allIdle` / `finished` above are the L1 flags): LAST
+exactly when the rules forbid the action, or no machine worked in the time unit just played and none has work left (`idleSpec`),
+or the action was legal and every real operation is scheduled and completed by the clock (`completeSpec`) -/
+theorem jobshop_step_last_iff_rules' (cfg : Cfg) (s : State) (a : List Int) (hI : Inv cfg s)
+    (hC : s.amask = maskOf cfg s) (hA : InSpec cfg a) :
+    (step cfg s a).2.stepType = .last ↔
+      (¬ legalAction cfg s a ∨ idleSpec cfg (step cfg s a).1 ∨
+        (legalAction cfg s a ∧ completeSpec cfg (step cfg s a).1)) :=
+  JobShop.step_last_iff_rules' cfg s a hI hC hA
 
 theorem jobshop_step_reaction (cfg : Cfg) (s : State) (a : List Int) (hI : Inv cfg s)
     (hC : s.amask = maskOf cfg s) (hA : InSpec cfg a) (hidle : allIdle cfg (next cfg s a) = false)
